@@ -8,6 +8,10 @@ TECH = ("bounded symbolic execution of the real Go code (go/ssa interpreter with
         "regenerated from /repo's working tree on every run) with an SMT solver (z3 5.1.0 via z3-new) deciding every "
         "branch and assertion; counterexamples replayed natively")
 
+TECH2 = ("bounded symbolic execution of the real Go code (go/ssa interpreter with symbolic data, encoding regenerated from /repo on every run) "
+         "extended with a cooperative scheduler: goroutine interleavings are explicit choice points explored under a stated preemption bound, "
+         "data stays symbolic and every equality is an SMT obligation (z3 5.1.0); counterexamples replayed natively with slow environment objects")
+
 # property -> (claimed?, level text, level note, design ref) ; unclaimed -> reason
 CLAIMED = {
     "C01": dict(
@@ -77,6 +81,14 @@ CLAIMED = {
         text="The real Handle runs on a real bufio.Reader (interpreted from source, so the reader's buffering is explored) over a scripted reader whose every call is, nondeterministically, a chunk of symbolic bytes (possibly after a pause longer than the tolerance), nothing, EOF, an i/o timeout or another error, with the real framing goroutine running under the engine's scheduler: what reaches the message channel is byte for byte what the script supplied, no message is empty, the output is closed, another read error stops the run at once, zero tolerance stops at the first interruption, and with a tolerance a single interruption never ends the run.",
         note="clock: time advances by sleeps and declared pauses plus a bounded jitter (stated bound); schedules: lazy and round-robin switching at synchronisation operations; 3 (thorough 4) reader calls.",
         ref="DESIGN.md section 6, C13"),
+    "C16": dict(
+        text="The real start(cfg) of rtcmlogger runs with its copying loop on a scripted standard input (0..5 symbolic bytes in reads of 1..3 bytes) and its recorder goroutine on the daily logger, under the lazy, round-robin and one-preemption schedules: standard output is identical to the input, and at the instant start returns - where the program exits - the day's record already holds exactly the input; later overwrites of the read buffer cannot change a block already handed to the recorder (checked through aliasing in the symbolic heap).",
+        note="found and natively confirmed the lost last block on the original tree (fixed by 575b6bc; the real binary lost it in 100 of 100 runs on a two-block input); blocks longer than 3 bytes and read errors are outside the bound.",
+        ref="DESIGN.md sections 5 and 6, C16", technique=TECH2),
+    "C19": dict(
+        text="Relay: the real handleMessages (both relay loops, the real RTCM parser and queue goroutines) on scripted connections with chunks of symbolic bytes, under the lazy, round-robin and one-preemption schedules: the server receives exactly the client's bytes in order whatever they are, the client receives the server's bytes unaltered, the parser never stops the relay (no panic, no deadlock, the call returns), and the queued messages are a prefix of the relayed client stream. Report: the real Status() over symbolic traffic: no traffic byte can add a '<' or '>' to the page (the page for the same traffic shape with harmless bytes has the same number of each).",
+        note="found and natively confirmed the unescaped message list on the original tree (fixed by 8ec93f5); TCP/TLS/HTTP are outside the claim; that parsing cannot crash on any data is C07.",
+        ref="DESIGN.md section 6, C19", technique=TECH2),
     "C18": dict(
         text="Bounded histories (capacities 1..4, thorough 1..8; up to capacity+3 additions; symbolic messages; both map iteration orders) give exactly the last min(N,n) messages in order and never more than N; one addition from an arbitrary valid state with a symbolic next index keeps the invariant and shifts the contents by one (covers long runs far beyond the capacity); a lock-set monitor shows every access to the queue state inside Add/GetMessages holds the right lock and the lock is free on return.",
         note="the concurrent clause is covered through the lock discipline (sequential consistency under the lock), confirmed natively by the race detector on a stress run; index values >= 2^62 are outside the claim.",
